@@ -384,6 +384,14 @@ def check(pid, tier, seed, replay=None):
     os.makedirs(os.path.join(CACHE, "scratch"), exist_ok=True)
     sh = src_hash()
     binpath = build_harness(sh)
+    if tier == "quick" and not replay and not os.environ.get("VERIF_NO_PREGEN"):
+        bd = os.path.join(CACHE, "corpus", sh, f"{P.BULK['name']}_{P.BULK.get('seed0', 1)}_{P.BULK['n'][tier]}_{P.steps_for(P.BULK['name'], tier)}")
+        if not os.path.exists(os.path.join(bd, ".done")):
+            try:
+                subprocess.Popen([sys.executable, os.path.abspath(__file__), "pregen", "--tier", tier], stdout=subprocess.DEVNULL,
+                                 stderr=subprocess.DEVNULL, start_new_session=True, env=dict(os.environ, VERIF_NO_PREGEN="1"))
+            except OSError:
+                pass
     cov = {"samples": []}
     assumptions = list(prop.get("assumptions", []))
     states = transitions = 0
@@ -543,9 +551,20 @@ def main():
     c.add_argument("--tier", default=os.environ.get("VERIF_TIER", "quick"))
     c.add_argument("--seed", type=int, default=int(os.environ.get("VERIF_SEED", "0") or 0))
     c.add_argument("--replay")
+    g = sub.add_parser("pregen")
+    g.add_argument("--tier", default="quick")
     a = ap.parse_args()
     if a.cmd == "setup":
         sys.exit(setup())
+    if a.cmd == "pregen":
+        # generate the slow corpora of the current tree ahead of the checks that need them (started in the background by
+        # the first check that runs; the cache lock makes a check that needs the corpus wait for it)
+        sh = src_hash()
+        binpath = build_harness(sh)
+        for cp in (P.BULK,):
+            if cp["n"][a.tier] > 0:
+                gen_corpus(binpath, sh, cp["name"], cp.get("seed0", 1), cp["n"][a.tier], P.steps_for(cp["name"], a.tier))
+        sys.exit(0)
     if a.cmd == "check":
         if a.tier not in ("quick", "thorough"):
             a.tier = "quick"
